@@ -64,14 +64,35 @@ def report (t : Tx) : List String :=
 
 def kindOf (s : String) : Option Kind := Kind.all.find? (fun k => k.name.toLower == s)
 
+def splitBar : List String → List String × List String
+  | [] => ([], [])
+  | t :: ts => if t == "|" then ([], ts) else let p := splitBar ts; (t :: p.1, p.2)
+
+def errName : Tx.TooLarge → String
+  | .input i => s!"err SerializedInputTooLarge {i}"
+  | .output i => s!"err SerializedOutputTooLarge {i}"
+  | .witness i => s!"err SerializedWitnessTooLarge {i}"
+
 def handle : List String → String
+  | "recached" :: kind :: ts =>
+    -- precompute on the first value, edit the object to the second value (the cache stays), precompute again, report
+    let p := splitBar ts
+    match kindOf kind, Text.parseAll p.1, Text.parseAll p.2 with
+    | some k, some v, some w =>
+      match Tx.precompute (fun _ => []) { kind := k, val := v, metadata := none } with
+      | .error e => errName e
+      | .ok t1 =>
+        match Tx.precompute (fun _ => []) { t1 with val := w } with
+        | .error e => errName e
+        | .ok t2 => " ".intercalate (report t2)
+    | _, _, _ => "bad-request"
   | op :: kind :: ts =>
     match kindOf kind, Text.parseAll ts with
     | some k, some v =>
       let t : Tx := { kind := k, val := v, metadata := none }
       if op == "off" then " ".intercalate (report t)
       else if op == "cached" then
-        match Tx.precompute [] t with
+        match Tx.precompute (fun _ => []) t with
         | .ok t' => " ".intercalate (report t')
         | .error (.input i) => s!"err SerializedInputTooLarge {i}"
         | .error (.output i) => s!"err SerializedOutputTooLarge {i}"
